@@ -9,7 +9,7 @@ package main
 // error), children are added from inside the action of a given rule with
 // NewChildMonitor + AddEvent under the action's monitor.
 //
-//	payload : W<workers>,F<failOnFirstError 0|1>,S<schedule seed>,D<directed 0|1> <casc> <casc> …
+//	payload : W<workers>,F<failOnFirstError 0|1>,S<schedule seed>,D<schedule mode 0..5>,M<through ECAL 0|1> <casc> <casc> …
 //	casc    : <w|a>=<node>/<node>/…        w = AddEventAndWait, a = AddEvent + finish handler
 //	node    : <parent|->.<parent rule|->.<t|s|z>.<rules|->      (node 0 is the root)
 //	result  : <casc result> ; … [ ~ <trace> ; …]
@@ -62,7 +62,7 @@ type c02Plan struct {
 	workers   int
 	failFirst bool
 	seed      uint64
-	directed  bool
+	sched     int // schedule mode, see c02Hook
 	ecal      bool
 	cascs     []c02Casc
 }
@@ -80,7 +80,7 @@ func c02Parse(p string) *c02Plan {
 		case 'S':
 			pl.seed = v
 		case 'D':
-			pl.directed = v == 1
+			pl.sched = int(v)
 		case 'M':
 			pl.ecal = v == 1
 		}
@@ -196,6 +196,13 @@ type c02State struct {
 	stamps  map[int]map[string]int64
 	unknown int
 	goCasc  map[uint64]int // goroutine evaluating addEventAndWait(...) -> cascade (ECAL mode)
+	posted  map[uint64]int // root -> cascade.post events seen
+	obsRun  map[uint64]int // root -> callbacks run
+	holds   map[uint64]int // root -> lock holds done
+	prio    map[uint64]int // PCT: goroutine -> priority
+	change  []int          // PCT: priority change points (hook event numbers)
+	step    int
+	low     int
 }
 
 var c02Cur atomic.Pointer[c02State]
@@ -245,9 +252,50 @@ func c02EventNode(e interface{}) int {
 	return v
 }
 
+// schedule modes (header field D): 0 random yields/sleeps at the hook points; 1 + hold a failing
+// task between SetErrors and Finish until another task's error observer has called AllErrors;
+// 2 + hold the adder after pool.AddTask of the root event until the cascade has posted; 3 + hold a
+// finisher INSIDE the root's critical section when one more monitor is outstanding (the last
+// finisher queues on the lock for > 1 ms, the mutex goes into starvation mode and Unlock hands the
+// processor to it: the last finisher runs before the first one continues after its Unlock), hold the
+// goroutine that saw zero before PostEvent, hold a non-last finisher right after Unlock; 4 PCT: a
+// random priority per goroutine, lower priorities are slowed down at every hook point, three
+// priority change points; 5 = 1+2+3.
+func (st *c02State) has(mode int) bool {
+	d := st.plan.sched
+	return d == mode || (d == 5 && mode >= 1 && mode <= 3)
+}
+
 func c02Hook(point string, args ...interface{}) {
 	st := c02Cur.Load()
-	if st == nil || !strings.HasPrefix(point, "cascade.") {
+	if st == nil {
+		return
+	}
+	if point == "pool.add.done" && st.has(2) {
+		// pool.AddTask is over. If this is the goroutine that adds a cascade's root event, hold it
+		// until that cascade has posted its finished message (and the callbacks ran)
+		gid := c02Goid()
+		st.mu.Lock()
+		ci, ok := st.goCasc[gid]
+		st.mu.Unlock()
+		if !ok {
+			return
+		}
+		dl := time.Now().Add(20 * time.Millisecond)
+		for time.Now().Before(dl) {
+			st.mu.Lock()
+			d := st.posted[c02RootOfCasc(st, ci)] > 0
+			st.mu.Unlock()
+			if d {
+				time.Sleep(300 * time.Microsecond)
+				CountRun("sched: adder held after AddTask until the cascade posted")
+				break
+			}
+			time.Sleep(50 * time.Microsecond)
+		}
+		return
+	}
+	if !strings.HasPrefix(point, "cascade.") {
 		return
 	}
 	u := func(i int) uint64 {
@@ -255,7 +303,7 @@ func c02Hook(point string, args ...interface{}) {
 		return v
 	}
 	var gid uint64
-	if point == "cascade.pop" || (point == "cascade.wait.registered" && st.plan.ecal) {
+	if point == "cascade.pop" || (point == "cascade.wait.registered" && st.plan.ecal) || st.plan.sched == 4 {
 		gid = c02Goid()
 	}
 	st.mu.Lock()
@@ -269,7 +317,14 @@ func c02Hook(point string, args ...interface{}) {
 			st.nextID[ci] = 1
 		}
 	}
-	park := false
+	const (
+		actNone = iota
+		actParkSetErrors
+		actHoldLock
+		actHoldZeroSeer
+		actHoldAfterUnlock
+	)
+	act := actNone
 	switch point {
 	case "cascade.child":
 		if ci, ok := st.rootOf[root]; ok {
@@ -279,6 +334,10 @@ func c02Hook(point string, args ...interface{}) {
 		st.rec(root, fmt.Sprintf("C%d.%d.%v", st.id(u(2)), st.id(u(1)), args[3]))
 	case "cascade.push":
 		st.rec(root, fmt.Sprintf("A%d.%d", st.id(u(1)), c02EventNode(args[2])))
+	case "cascade.handler.registered":
+		st.rec(root, "J")
+	case "cascade.added":
+		st.rec(root, fmt.Sprintf("K%d", st.id(u(1))))
 	case "cascade.pop":
 		w, ok := st.goIdx[gid]
 		if !ok {
@@ -292,45 +351,83 @@ func c02Hook(point string, args ...interface{}) {
 		st.rec(root, fmt.Sprintf("N%d.%v", st.id(u(1)), args[2]))
 	case "cascade.seterrors":
 		st.rec(root, fmt.Sprintf("T%d", st.id(u(1))))
-		if st.plan.directed && !st.parked {
+		if st.has(1) && !st.parked {
 			st.parked = true
-			park = true
+			act = actParkSetErrors
 		}
 	case "cascade.handled":
 		st.rec(root, fmt.Sprintf("H%d", st.id(u(1))))
 	case "cascade.finished.locked":
 		st.rec(root, fmt.Sprintf("F%d.%v.%d", st.id(u(1)), args[2], c02EventNode(args[3])))
+		if unf, _ := args[2].(int); st.has(3) && unf == 1 && st.holds[root] < 2 {
+			st.holds[root]++
+			act = actHoldLock
+		}
 	case "cascade.finished.unlocked":
 		b := 0
 		if v, _ := args[2].(bool); v {
 			b = 1
 		}
 		st.rec(root, fmt.Sprintf("U%d.%d", st.id(u(1)), b))
+		if st.has(3) {
+			if b == 1 {
+				act = actHoldZeroSeer
+			} else if st.rng.Intn(3) == 0 {
+				act = actHoldAfterUnlock
+			}
+		}
 	case "cascade.post":
+		st.posted[root]++
 		st.rec(root, "P")
 	case "cascade.queue.drop":
 		st.rec(root, "D")
 	case "cascade.obs.queue":
+		st.obsRun[root]++
 		st.rec(root, "Oq")
 	case "cascade.obs.wait":
+		st.obsRun[root]++
 		st.rec(root, "Ow")
 	case "cascade.obs.handler":
+		st.obsRun[root]++
 		st.rec(root, "Oh")
 	case "cascade.wait.registered":
 		st.rec(root, "W")
 	}
 	x := st.rng.Intn(100)
 	obs0 := st.obsDone
+	pct := time.Duration(0)
+	if st.plan.sched == 4 {
+		// PCT: rank of this goroutine's priority among the goroutines seen so far
+		st.step++
+		if _, ok := st.prio[gid]; !ok {
+			st.prio[gid] = 1000 + st.rng.Intn(1000)
+		}
+		for _, cp := range st.change {
+			if cp == st.step {
+				st.low--
+				st.prio[gid] = st.low
+			}
+		}
+		rank := 0
+		for _, p := range st.prio {
+			if p > st.prio[gid] {
+				rank++
+			}
+		}
+		pct = time.Duration(rank) * 25 * time.Microsecond
+	}
 	st.mu.Unlock()
-	if park {
-		// directed schedule: hold this failing task between SetErrors and Finish until the error
-		// observer of another task has called AllErrors (or nothing of the kind happens)
+	switch act {
+	case actParkSetErrors:
+		// hold this failing task between SetErrors and Finish until the error observer of another
+		// task has called AllErrors (or nothing of the kind happens)
 		dl := time.Now().Add(20 * time.Millisecond)
 		for time.Now().Before(dl) {
 			st.mu.Lock()
 			d := st.obsDone > obs0
 			st.mu.Unlock()
 			if d {
+				CountRun("sched: failing task held between SetErrors and Finish until another AllErrors call")
 				break
 			}
 			time.Sleep(50 * time.Microsecond)
@@ -338,6 +435,24 @@ func c02Hook(point string, args ...interface{}) {
 		st.mu.Lock()
 		st.parked = false
 		st.mu.Unlock()
+		return
+	case actHoldLock:
+		CountRun("sched: finisher held inside the root lock with one monitor outstanding (2 ms)")
+		time.Sleep(2 * time.Millisecond)
+		return
+	case actHoldZeroSeer:
+		CountRun("sched: zero-seer held before PostEvent")
+		time.Sleep(500 * time.Microsecond)
+		return
+	case actHoldAfterUnlock:
+		CountRun("sched: non-last finisher held after Unlock")
+		time.Sleep(300 * time.Microsecond)
+		return
+	}
+	if st.plan.sched == 4 {
+		if pct > 0 {
+			time.Sleep(pct)
+		}
 		return
 	}
 	switch {
@@ -354,7 +469,7 @@ func c02Hook(point string, args ...interface{}) {
 // c02Await waits for a cascade's wait to return. "Stuck" is decided from the absence of progress
 // (hook events, action completions) over 10 s of observed time, not from a wall-clock limit: polls
 // that come late (the whole process was not scheduled) do not count.
-func c02Await(st *c02State, done chan struct{}) bool {
+func c02Await(st *c02State, ci int, done chan struct{}) bool {
 	progress := func() int64 {
 		st.mu.Lock()
 		defer st.mu.Unlock()
@@ -378,6 +493,15 @@ func c02Await(st *c02State, done chan struct{}) bool {
 			last, idle = p, 0
 		} else if idle++; idle >= 200 {
 			return false
+		} else if idle >= 8 {
+			// the hooks saw this cascade post its finished message and nothing has moved for
+			// 400 ms: the notification did not reach the waiter
+			st.mu.Lock()
+			posted := st.posted[c02RootOfCasc(st, ci)] > 0
+			st.mu.Unlock()
+			if posted {
+				return false
+			}
 		}
 	}
 }
@@ -433,7 +557,12 @@ func c02Run(payload string) string {
 	plan := c02Parse(payload)
 	st := &c02State{plan: plan, rng: NewRand(plan.seed), rootOf: map[uint64]int{}, dense: map[uint64]int{},
 		nextID: map[int]int{}, goIdx: map[uint64]int{}, trace: map[int][]string{}, nilSeen: map[int]int{},
-		handed: map[int][]engine.Monitor{}, stamps: map[int]map[string]int64{}, goCasc: map[uint64]int{}}
+		handed: map[int][]engine.Monitor{}, stamps: map[int]map[string]int64{}, goCasc: map[uint64]int{},
+		posted: map[uint64]int{}, obsRun: map[uint64]int{}, holds: map[uint64]int{}, prio: map[uint64]int{}, low: 1000}
+	for i := 0; i < 3; i++ {
+		st.change = append(st.change, 1+st.rng.Intn(300))
+	}
+	CountRun(fmt.Sprintf("schedule mode %d", plan.sched))
 	if plan.ecal {
 		return c02RunEcal(plan, st)
 	}
@@ -552,6 +681,9 @@ func c02Run(payload string) string {
 		go func() {
 			defer wg.Done()
 			go func() {
+				st.mu.Lock()
+				st.goCasc[c02Goid()] = ci
+				st.mu.Unlock()
 				if c.mode == 'w' {
 					if _, err := proc.AddEventAndWait(ev, rm); err != nil {
 						return
@@ -574,7 +706,7 @@ func c02Run(payload string) string {
 				}
 				close(done)
 			}()
-			r.ret = c02Await(st, done)
+			r.ret = c02Await(st, ci, done)
 		}()
 	}
 	wg.Wait()
@@ -821,7 +953,7 @@ func c02RunEcal(plan *c02Plan, st *c02State) string {
 				st.mu.Unlock()
 				close(done)
 			}()
-			r.ret = c02Await(st, done)
+			r.ret = c02Await(st, ci, done)
 		}()
 	}
 	wg.Wait()
@@ -935,17 +1067,14 @@ func init() {
 		},
 		Gen: func(g *Gen) {
 			ecalMode := false
-			emit := func(workers int, ff bool, directed bool, cs []c02Casc) {
+			emit := func(workers int, ff bool, sched int, cs []c02Casc) {
 				var parts []string
 				for i := range cs {
 					parts = append(parts, cs[i].String())
 				}
-				f, d := 0, 0
+				f, d := 0, sched
 				if ff {
 					f = 1
-				}
-				if directed {
-					d = 1
 				}
 				g.Count(fmt.Sprintf("cascades=%d", len(cs)))
 				g.Count(fmt.Sprintf("workers=%d", workers))
@@ -970,9 +1099,25 @@ func init() {
 				"w=-.-.t.o/0.0.s.-/0.0.s.-", "w=-.-.t.o/0.0.z.-/0.0.t.x/2.0.s.-",
 			}
 			for _, c := range corpus {
-				for _, w := range []int{1, 2, 4, 16} {
+				for k, w := range []int{1, 2, 4, 16} {
 					g.Count("corpus")
-					emit(w, false, true, []c02Casc{lit(c)})
+					emit(w, false, 1, []c02Casc{lit(c)})
+					emit(w, false, []int{2, 3, 5, 4}[k], []c02Casc{lit(c)})
+				}
+			}
+			// directed schedules around descendantFinished / PostEvent and around AddEvent: siblings
+			// finishing at the same time (the last two finishers), adder held after AddTask
+			for _, c := range []string{
+				"w=-.-.t.o/0.0.t.o/0.0.t.o", "a=-.-.t.o/0.0.t.o/0.0.t.o", "w=-.-.t.o/0.0.t.x/0.0.t.o/0.0.t.x",
+				"w=-.-.t.oo/0.0.t.o/0.1.t.o/1.0.t.o/2.0.t.o", "w=-.-.t.o", "a=-.-.t.o", "a=-.-.t.x", "w=-.-.t.o/0.0.s.-",
+			} {
+				for rep := 0; rep < 3; rep++ {
+					for _, w := range []int{2, 4, 16} {
+						g.Count("corpus directed")
+						emit(w, false, 2, []c02Casc{lit(c)})
+						emit(w, false, 3, []c02Casc{lit(c)})
+						emit(w, rep == 1, 5, []c02Casc{lit(c), lit(c)})
+					}
 				}
 			}
 			// many tasks of one cascade failing at the same time on many workers: the error observers
@@ -980,19 +1125,19 @@ func init() {
 			wide := "w=-.-.t.o" + strings.Repeat("/0.0.t.x", 12)
 			for i := 0; i < 60; i++ {
 				g.Count("corpus wide failing cascade")
-				emit(16, false, i%2 == 0, []c02Casc{lit(wide)})
+				emit(16, false, []int{1, 0, 3, 5, 1, 4}[i%6], []c02Casc{lit(wide)})
 			}
 			ecalMode = true
 			for _, c := range corpus[:2] {
 				g.Count("corpus")
-				emit(4, false, true, []c02Casc{lit(c)})
-				emit(4, true, true, []c02Casc{lit(c), lit(c)})
+				emit(4, false, 1, []c02Casc{lit(c)})
+				emit(4, true, 5, []c02Casc{lit(c), lit(c)})
 			}
 			ecalMode = false
 			for _, w := range []int{2, 8} {
 				g.Count("corpus")
-				emit(w, false, true, []c02Casc{lit(corpus[0]), lit(corpus[1]), lit(corpus[2])})
-				emit(w, true, true, []c02Casc{lit(corpus[1]), lit(corpus[1])})
+				emit(w, false, 1, []c02Casc{lit(corpus[0]), lit(corpus[1]), lit(corpus[2])})
+				emit(w, true, 5, []c02Casc{lit(corpus[1]), lit(corpus[1])})
 			}
 			n := 1000
 			if g.Thorough() {
@@ -1017,7 +1162,7 @@ func init() {
 					cs = append(cs, c02GenCasc(g.R, maxNodes, pf))
 				}
 				ecalMode = i%5 == 4
-				emit(workers, g.R.Intn(4) == 0, g.R.Intn(3) == 0, cs)
+				emit(workers, g.R.Intn(4) == 0, []int{0, 0, 0, 0, 0, 1, 1, 1, 2, 2, 2, 3, 3, 3, 4, 4, 4, 4, 5, 5}[g.R.Intn(20)], cs)
 				ecalMode = false
 			}
 		},
